@@ -16,6 +16,11 @@ wt = f"/tmp/wt/confirm_{sid}"
 env = dict(os.environ, PYTHONPATH=wt)
 
 
+def _has_fail(line):
+    import re
+    return re.search(r"(?<![a-z])\d+ (failed|error)", line) is not None
+
+
 def run(cmd, **kw):
     return subprocess.run(cmd, shell=True, capture_output=True, text=True, env=env, **kw)
 
@@ -31,13 +36,13 @@ try:
     broken = run(f"cd {wt} && /venv/bin/python {demo}")
     tests = run(f"cd {wt} && /venv/bin/python -m pytest -q -p no:cacheprovider -n 12 --timeout=900 tests 2>&1 | tail -3")
     summary = [l for l in tests.stdout.splitlines() if "passed" in l or "failed" in l]
-    ok = clean.returncode == 0 and broken.returncode != 0 and comp.returncode == 0 and summary and "failed" not in summary[-1]
+    ok = clean.returncode == 0 and broken.returncode != 0 and comp.returncode == 0 and bool(summary) and not _has_fail(summary[-1])
     print(f"{sid}: demo clean rc={clean.returncode}, demo with change rc={broken.returncode}, tests: {summary[-1] if summary else tests.stdout[-200:]}")
-    if not ok and summary and "failed" in summary[-1]:
+    if not ok and summary and _has_fail(summary[-1]):
         # hypothesis deadlines under load are flaky: re-run once
         tests = run(f"cd {wt} && /venv/bin/python -m pytest -q -p no:cacheprovider -n 12 --timeout=900 tests 2>&1 | tail -3")
         summary = [l for l in tests.stdout.splitlines() if "passed" in l or "failed" in l]
-        ok = clean.returncode == 0 and broken.returncode != 0 and summary and "failed" not in summary[-1]
+        ok = clean.returncode == 0 and broken.returncode != 0 and bool(summary) and not _has_fail(summary[-1])
         print(f"   re-run tests: {summary[-1] if summary else '?'}")
     if ok:
         dst = f"/verif/seeded/{sid}"
